@@ -381,6 +381,7 @@ func (r *Runner) stopEarly() bool {
 func (r *Runner) teardown() {
 	r.W.Mu.Lock()
 	r.quiet = true
+	r.quietFlag.Store(true)
 	r.cut = map[[2]string]bool{}
 	r.W.Mu.Unlock()
 	for _, id := range r.ids {
